@@ -77,6 +77,13 @@ fn tune(prop: &str, cfg: &mut GenCfg, seed: u64) {
     }
     match prop {
         "C05" => {
+            // one run in four keeps read-only transactions open across commits: pages stay
+            // pending for several generations, and the accounting must still be exact
+            if seed % 4 == 0 {
+                cfg.readers = true;
+                cfg.max_readers = r.range(1, 3) as u32;
+                cfg.p_reopen = 0;
+            }
             // biased to bucket deletion at several depths, splits and merges
             cfg.max_depth = cfg.max_depth.max(2);
             cfg.w_op[7] = cfg.w_op[7].max(5);
@@ -149,6 +156,11 @@ pub fn engine_cfg(case: &Case, path: &str) -> EngineCfg {
         "C05" => {
             e.db_check = true;
             e.verify_commit = false;
+            if case.seed % 4 == 0 {
+                // readers are held on the committing thread: leave room so that growth (which
+                // would self-deadlock, see C03) is rarely needed
+                e.num_pages = e.num_pages.max(4096);
+            }
         }
         "C06" => {
             e.c06 = true;
